@@ -797,7 +797,7 @@ class C09(Prop):
     trusted_extra = ["networkx (external): only its output is checked, per run, by the proved checker",
                      "harness reading of Component.setup_component (setup() first, then the Component-level initializer); "
                      "cross-checked on every run by the node/edge-set comparison with the real graph"]
-    n_quick = 150
+    n_quick = 220
     n_thorough = 2500
     workers = 6
     case_timeout = 120
